@@ -1,6 +1,6 @@
 //! Guard-paged caller buffers and the tracking allocator (R-ALLOC).
 use core::ffi::{c_uint, c_void};
-use std::cell::RefCell;
+use std::cell::{Cell, RefCell};
 use std::collections::HashMap;
 
 pub const PAGE: usize = 4096;
@@ -81,25 +81,26 @@ impl Drop for Arena {
 // ------------------------------------------------------------------------------------------
 // tracking allocator
 
+/// Interior mutability throughout: the allocator callbacks reach the tracker through the `opaque` raw
+/// pointer while the harness holds a reference to it, so no `&mut Tracker` may exist across an FFI call
+/// (the optimiser would be free to move stores to plain fields past the call).
 pub struct Tracker {
-    pub live: HashMap<usize, usize>,
-    pub requests: usize,
-    pub frees: usize,
+    live: RefCell<HashMap<usize, usize>>,
+    requests: Cell<usize>,
+    frees: Cell<usize>,
     /// fail exactly this request index (0-based)
-    pub fail_at: Option<usize>,
+    fail_at: Cell<Option<usize>>,
     /// fail every request with index >= this
-    pub fail_from: Option<usize>,
+    fail_from: Cell<Option<usize>>,
     pub fill: u8,
-    pub errors: Vec<String>,
+    errors: RefCell<Vec<String>>,
     pub opaque: usize,
-    pub sizes: Vec<usize>,
-    pub failed: usize,
-    pub peak_live: usize,
+    failed: Cell<usize>,
 }
 
 impl Tracker {
     pub fn new(fill: u8) -> Box<Tracker> {
-        let mut t = Box::new(Tracker { live: HashMap::new(), requests: 0, frees: 0, fail_at: None, fail_from: None, fill, errors: Vec::new(), opaque: 0, sizes: Vec::new(), failed: 0, peak_live: 0 });
+        let mut t = Box::new(Tracker { live: RefCell::new(HashMap::new()), requests: Cell::new(0), frees: Cell::new(0), fail_at: Cell::new(None), fail_from: Cell::new(None), fill, errors: RefCell::new(Vec::new()), opaque: 0, failed: Cell::new(0) });
         t.opaque = &*t as *const Tracker as usize;
         t
     }
@@ -111,10 +112,29 @@ impl Tracker {
         strm.zfree = Some(zfree);
         strm.opaque = self.opaque_ptr();
     }
-    pub fn leak_free_all(&mut self) {
-        for (p, _) in self.live.drain() {
+    pub fn leak_free_all(&self) {
+        for (p, _) in self.live.borrow_mut().drain() {
             unsafe { libc::free(p as *mut c_void) };
         }
+    }
+    pub fn requests(&self) -> usize {
+        self.requests.get()
+    }
+    pub fn failed(&self) -> usize {
+        self.failed.get()
+    }
+    pub fn live_count(&self) -> usize {
+        self.live.borrow().len()
+    }
+    pub fn first_error(&self) -> Option<String> {
+        self.errors.borrow().first().cloned()
+    }
+    pub fn set_fail(&self, at: Option<usize>, from: Option<usize>) {
+        self.fail_at.set(at);
+        self.fail_from.set(from);
+    }
+    pub fn get_fail(&self) -> (Option<usize>, Option<usize>) {
+        (self.fail_at.get(), self.fail_from.get())
     }
 }
 
@@ -137,10 +157,10 @@ pub fn unregister(t: &Tracker) {
     OPAQUES.with(|o| o.borrow_mut().retain(|&x| x != t.opaque));
 }
 
-fn tracker_of(opaque: *mut c_void) -> Option<&'static mut Tracker> {
+fn tracker_of(opaque: *mut c_void) -> Option<&'static Tracker> {
     let ok = OPAQUES.with(|o| o.borrow().contains(&(opaque as usize)));
     if ok {
-        Some(unsafe { &mut *(opaque as *mut Tracker) })
+        Some(unsafe { &*(opaque as *const Tracker) })
     } else {
         FOREIGN_ERRORS.with(|e| e.borrow_mut().push(format!("allocator callback received opaque {:p} that was never installed", opaque)));
         None
@@ -152,12 +172,11 @@ pub unsafe extern "C" fn zalloc(opaque: *mut c_void, items: c_uint, size: c_uint
         Some(t) => t,
         None => return core::ptr::null_mut(),
     };
-    let idx = t.requests;
-    t.requests += 1;
+    let idx = t.requests.get();
+    t.requests.set(idx + 1);
     let n = (items as usize) * (size as usize);
-    t.sizes.push(n);
-    if t.fail_at == Some(idx) || t.fail_from.map_or(false, |f| idx >= f) {
-        t.failed += 1;
+    if t.fail_at.get() == Some(idx) || t.fail_from.get().map_or(false, |f| idx >= f) {
+        t.failed.set(t.failed.get() + 1);
         return core::ptr::null_mut();
     }
     let p = unsafe { libc::malloc(n.max(1)) } as *mut u8;
@@ -165,10 +184,7 @@ pub unsafe extern "C" fn zalloc(opaque: *mut c_void, items: c_uint, size: c_uint
         return core::ptr::null_mut();
     }
     unsafe { core::ptr::write_bytes(p, t.fill, n) };
-    t.live.insert(p as usize, n);
-    if t.live.len() > t.peak_live {
-        t.peak_live = t.live.len();
-    }
+    t.live.borrow_mut().insert(p as usize, n);
     p as *mut c_void
 }
 
@@ -177,15 +193,16 @@ pub unsafe extern "C" fn zfree(opaque: *mut c_void, ptr: *mut c_void) {
         Some(t) => t,
         None => return,
     };
-    t.frees += 1;
-    match t.live.remove(&(ptr as usize)) {
+    t.frees.set(t.frees.get() + 1);
+    let removed = t.live.borrow_mut().remove(&(ptr as usize));
+    match removed {
         Some(n) => {
             // poison, so that use-after-free changes observable behaviour deterministically
             unsafe { core::ptr::write_bytes(ptr as *mut u8, 0xDD, n) };
             unsafe { libc::free(ptr) };
         }
         None => {
-            t.errors.push(format!("zfree({:p}) of a block that is not live in this allocator (double free or foreign pointer)", ptr));
+            t.errors.borrow_mut().push(format!("zfree({:p}) of a block that is not live in this allocator (double free or foreign pointer)", ptr));
         }
     }
 }
